@@ -1,6 +1,8 @@
 """C14 — the mapping API obeys dictionary laws and the rebuilt text always agrees with it."""
 from __future__ import annotations
 
+import re
+
 from .. import docmodel as dm
 from .. import editprops as ep
 from .. import framework as fw
@@ -70,6 +72,11 @@ TARGETED = [
     [("set", [], "k", 5), ("set", [], "j", 6), ("del", [], "k")],
     [("get", ["services", "nginx", "virtualHosts"], "b")], [("get", ["services", "nginx", "virtualHosts"], "a")],
     [("set", ["services", "nginx", "virtualHosts"], "b", 5), ("get", ["services", "nginx", "virtualHosts"], "b")],
+    [("get", [], "foo")], [("set", [], "foo", 5), ("get", [], "foo")], [("del", [], "foo")], [("set", [], "foo", 5), ("del", [], "foo"), ("get", [], "foo")],
+    [("get", ["a"], "k")], [("set", ["a"], "k", 5)], [("del", [], "b")],
+    # an edit through the library's path functions in between, then the mapping again
+    [("rmcli", "a.b.c"), ("get", [], "a")], [("rmcli", "a.b.c"), ("get", ["a"], "b")], [("rmcli", "a.b.c"), ("set", [], "a", 5), ("get", [], "a")],
+    [("rmcli", "a.p"), ("get", ["a"], "p")], [("setcli", "a.z", "7"), ("get", ["a"], "z")], [("setcli", "zz", "7"), ("get", [], "zz"), ("del", [], "zz")],
     [("get", ["a", "b", "c"], "e")], [("set", ["a", "b", "c"], "e", 5)], [("del", ["a", "b", "c"], "e")], [("get", ["a", "b"], "f")],
 ]
 
@@ -147,6 +154,8 @@ def run_history(ctx, text, ops, info, reqs_out):
                         m[op[2]] = mk_value(op[3])
                     else:
                         del m[op[2]]
+            elif op[0] in ("rmcli", "setcli"):
+                (M.remove_value(src, op[1]) if op[0] == "rmcli" else M.set_value(src, op[1], op[2]))
             elif op[0] == "topscopeset":
                 src.expr.scope[op[1]] = mk_value(op[2])
                 tgt = src._resolve_target_set()
@@ -163,7 +172,7 @@ def run_history(ctx, text, ops, info, reqs_out):
             exc_s = f"{type(exc).__name__}: {exc}"
         # model request (the model has no notion of a target reached through a let-bound name:
         # the correspondence of such a history stops before the rebinding)
-        if op[0] == "topscopeset" or model_stopped:
+        if op[0] in ("topscopeset", "rmcli", "setcli") or model_stopped:
             model_stopped = True
         elif op[0] == "get":
             req.append(["getitem", [hx(x) for x in op[1]], hx(op[2])])
@@ -236,6 +245,8 @@ def run_history(ctx, text, ops, info, reqs_out):
                 ctx.fail({"clause": "scopeget-invents", "op": op[0]}, inp,
                          f"scope lookup {op[1]!r} succeeded although the scope mapping lists {r['scope_names']!r}")
                 continue
+        if op[0] in ("rmcli", "setcli"):
+            continue  # what set/rm do to the text is C05's; here they only prepare the state the mapping is asked about
         if op[0] == "topscopeset":
             want = {k: (str(v) if isinstance(v, int) else '"' + v + '"') for k, v in op[2].items()}
             if r["res"] != "ok" or ta != want:
@@ -264,6 +275,8 @@ def run_history(ctx, text, ops, info, reqs_out):
         fam = "attrpath" if in_family else "plain"
         dotted = any("." in kk and not kk.startswith('"') for kk in keys + [op[2]])
         key = {"op": op[0], "family": fam, "dotted": dotted, "nested": bool(keys)}
+        if names and re.search(r'"%s"\s*=' % re.escape(names[-1]), r["before"]) and names[-1].isidentifier():
+            key["spelling"] = "quoted-in-file"  # the file spells the key as a quoted identifier (`"foo" = …`)
         if in_family:
             # which part of an attrpath family is addressed: the root (or an inner prefix), an existing
             # leaf (a Binding of its own, writable), or a new key of the merged set
@@ -351,7 +364,8 @@ def stream(ctx):
     for t in ["{\n  # TODO\n}\n", "{\n\n}\n", "{\n  a = {\n    # TODO\n  };\n  b = 1;\n}\n", "{ pkgs }:\n{\n  # nothing yet\n}\n",
               "{\n  a = {\n  };\n  b = [\n    # none\n  ];\n}\n",
               "{\n  services.nginx.virtualHosts.a = 1;\n  services.nginx.virtualHosts.b = 2;\n  x = 3;\n}\n",
-              "{\n  a.b.c.d = 1;\n  a.b.c.e = 2;\n  a.b.f = 3;\n}\n"]:
+              "{\n  a.b.c.d = 1;\n  a.b.c.e = 2;\n  a.b.f = 3;\n}\n",
+              "{ \"foo\" = 1; bar = 2; }\n", "{\n  a = {\n    \"k\" = 1;\n  };\n  \"b\" = 2;\n}\n", "{\n  a.b.c = 1;\n  e = 3;\n}\n"]:
         for rep in range(4 if ctx.quick else 40):
             texts.append((t, {"wrapper": "special"}))
     for _ in range(2500 if ctx.quick else 30000):
